@@ -78,3 +78,48 @@ def worker_home():
     _state['worker_pid'] = os.getpid()
     _state['worker_home'] = home
     return home
+
+
+KEY_PATTERNS = ['ends-lf', 'ends-crlf', 'ends-nul', 'starts-nul', 'all-lf', 'all-space', 'all-ff', 'ends-space', 'starts-lf', 'ascii-digits']
+
+
+class PatternDrbg:
+    """os.urandom replacement that returns awkward-but-legal byte strings (for key material): a key is just bytes, and
+    wire formats must not treat it as text"""
+
+    def __init__(self, pattern, *parts):
+        self.pattern = pattern
+        self._r = random.Random(int.from_bytes(_h('pattern', pattern, *parts), 'big'))
+
+    def read(self, n):
+        b = bytearray(self._r.randbytes(n))
+        if n == 0:
+            return b''
+        p = self.pattern
+        if p == 'ends-lf':
+            b[-1] = 0x0a
+        elif p == 'ends-crlf':
+            b[-2:] = b'\r\n'[-min(2, n):]
+        elif p == 'ends-nul':
+            b[-1] = 0
+        elif p == 'starts-nul':
+            b[0] = 0
+        elif p == 'all-lf':
+            b = bytearray(b'\n' * n)
+        elif p == 'all-space':
+            b = bytearray(b' ' * n)
+        elif p == 'all-ff':
+            b = bytearray(b'\xff' * n)
+        elif p == 'ends-space':
+            b[-1] = 0x20
+        elif p == 'starts-lf':
+            b[0] = 0x0a
+        elif p == 'ascii-digits':
+            b = bytearray((0x30 + x % 10) for x in b)
+        return bytes(b)
+
+
+def pattern_urandom(pattern, *parts):
+    d = PatternDrbg(pattern, *parts)
+    os.urandom = d.read
+    return d
